@@ -25,6 +25,8 @@
 (*                    the UNION of the pools' extensions                                            *)
 (*   Truncate         the queue is cut above the height (no insertion)                              *)
 (*   put_*_subtree_roots  no effect on the queue; the end height becomes known                      *)
+(*   Prune            prune_scan_queue_below: demote / delete what is queued below a height          *)
+(*   QueueRescans     the given ranges at the given priority, forced                                 *)
 (*                                                                                                  *)
 (* The rustdoc leaves open which shard end heights the wallet still knows after a rewind; users of  *)
 (* this module treat that table as an input (see Trace_WalletQueue).  Everything else is exact.     *)
@@ -165,6 +167,31 @@ ScanComplete(Q, s, e, found, ends, act, b) == Replace(Q, ScanInsertions(s, e, fo
 MinShardTip(ends) ==
     LET tips == { SetMax({ r[2] : r \in ends[Pools[i]] }) : i \in { i \in 1..3 : ends[Pools[i]] # {} } }
     IN  IF tips = {} THEN NoH ELSE SetMin(tips)
+
+-----------------------------------------------------------------------------------------
+\* prune_scan_queue_below(h, retain).  retain = None: nothing below h is retained; otherwise the entries of priority
+\* >= retain and the bookkeeping priorities Scanned / Ignored are retained (untouched even where they straddle h).
+\* "Pruning must not leave a gap": what is pruned is demoted to Ignored from the lowest retained entry upwards and
+\* deleted below it ("only coverage below the lowest retained entry may be deleted"); nothing at or above h changes.
+\* Entries are maximal runs of one priority, so the entry-wise rule is this pointwise one.
+Retained(p, retain) == retain # None /\ (p <= Scanned \/ p >= retain)
+Prune(Q, h, retain) ==
+    LET below == { x \in Hts : x < h /\ Q.f[x] # None }
+        kept  == { x \in below : Retained(Q.f[x], retain) }
+        floor == IF kept = {} THEN NoH ELSE SetMin(kept)
+        f2    == [x \in Hts |-> IF x \in below /\ x \notin kept
+                                THEN (IF floor # NoH /\ x >= floor THEN Ignored ELSE None)
+                                ELSE Q.f[x]]
+        rem   == { x \in Hts : f2[x] # None }
+    IN  IF rem = {} THEN EmptyQueue ELSE [f |-> f2, lo |-> SetMin(rem), hi |-> SetMax(rem) + 1]
+\* the number the operation returns: entries of the table that were removed or altered
+PruneCount(Q, h, retain) ==
+    LET v == Vec(Q)  w == Vec(Prune(Q, h, retain))
+    IN  Cardinality({ i \in DOMAIN v : ~\E j \in DOMAIN w : w[j] = v[i] })
+
+\* queue_rescans(ranges, priority): the ranges are inserted with that priority, FORCED (Scanned is not sticky)
+RescanInsertions(ranges, p) == [i \in DOMAIN ranges |-> Ins(ranges[i][1], ranges[i][2], p, TRUE)]
+QueueRescans(Q, ranges, p) == Replace(Q, RescanInsertions(ranges, p))
 
 \* put_*_subtree_roots(index, end height)
 PutRoot(ends, P, i, h) == [ends EXCEPT ![P] = { r \in ends[P] : r[1] # i } \cup { << i, h >> }]
